@@ -352,6 +352,8 @@ var c14Shapes = []string{
 	"W, W, W", "W. W. W.", "W-W W", "W W... W", "W W (N)", "N/N/N", "N-N-N", "N:N", "W #N", "W N% W", "W & W", "W + W", "N x N",
 	// apostrophes (the single-quote reading applies) and near-keyword words: K = one letter + keyword or keyword + letter
 	"W'W N", "W'K N", "W'K W", "K N", "W K N", "N K N", "K K N", "W'W N W'W", "W's N W'W", "W'W W W'W", "W N W'W N", "W's N K", "W'K N W'W", "K's W N", "W 'W' W", "W \"W\" N", "W's \"W\" N",
+	// an e-mail address inside a sentence with words and numbers
+	"W N, W@W.W", "W N W@W.W", "W@W.W, N W", "W N; W@W.W", "W W N, W.W@W.W W", "W: W@W.W N", "N, W@W.W", "W N, W@W.W.", "W N, WN@W.W, N",
 	// random identifiers
 	"N R N", "R R N", "N R N R N", "R N", "R", "R'R N", "R.R@R.R", "R, R N.",
 }
@@ -880,7 +882,7 @@ func c19() *core.Check {
 	schemes := []string{"javascript:", "vbscript:", "data:", "view-source:"}
 	return &core.Check{
 		ID: "C19",
-		Rule: "(recall) for every scheme in {javascript:, vbscript:, data:, view-source:}: per-byte encodings in {literal, &#D;, &#D, &#0000D;, &#xH;, &#XH, &#x00H;} exhaustively for data: and the java prefix (8^5, 8^4) and sampled for the longer schemes, x leading junk (bytes <= 0x20, >= 0x7f, entity-encoded white space) x NUL/LF between scheme letters (also runs of 1-65537 ignorable characters / bytes at every position and as leading junk, with every length in 1020-1025, 4095-4097 and 65535-65537) x case masks; oracle: the URL predicate is true, and IsXSS(<a ATTR=quote(value)>) is true for every live URL attribute (also upper-/mixed-case, with NUL runs of 1-97 bytes inside the name, and preceded by the same attribute with a harmless value; on 17 harmless element names, behind one or two of 27 harmless companion attributes such as attributeName=fill, and behind 22 ordinary markup prefixes incl. <plaintext>, <xmp>, <textarea>, <title>; three cases in eight as injected text: behind a closing quote that is the first byte, behind x\" and inside an unquoted value) x 4 quotings; unquoted values keep their leading white-space / NUL junk (the tokenizer skips it). " +
+		Rule: "(recall) for every scheme in {javascript:, vbscript:, data:, view-source:}: per-byte encodings in {literal, &#D;, &#D, &#0000D;, &#xH;, &#XH, &#x00H;} exhaustively for data: and the java prefix (8^5, 8^4) and sampled for the longer schemes, x leading junk (bytes <= 0x20, >= 0x7f, entity-encoded white space) x NUL/LF between scheme letters (also runs of 1-65537 ignorable characters / bytes at every position and as leading junk, with every length in 1020-1025, 4095-4097 and 65535-65537) x case masks; oracle: the URL predicate is true, and IsXSS(<a ATTR=quote(value)>) is true for every live URL attribute (also upper-/mixed-case, with NUL runs of 1-97 bytes inside the name, and preceded by the same attribute with a harmless value; on 17 harmless element names, behind one or two of 27 harmless companion attributes such as attributeName=fill, and behind 22 ordinary markup prefixes incl. <plaintext>, <xmp>, <textarea>, <title>; three cases in eight as injected text: behind a closing quote that is the first byte, behind x\" and inside an unquoted value) x 4 quotings; every scheme written out plainly with 21 real-world continuations (inline images with their real file signatures, text/html, svg) on every URL attribute in every quoting; unquoted values keep their leading white-space / NUL junk (the tokenizer skips it). " +
 			"(decoder) every string over {& # x X ; 0 1 9 a f F g NUL 0xff} up to length 6 (thorough 7) plus boundary values around 0x1000FF in decimal and hex with 0-8 leading zeros and every tail, values that are small again modulo 2^31 ... 2^128 (wrap-around), and all 256 byte values in every position of a reference: (value, consumed) must equal the decoder specification, 1 <= consumed <= |s|. Non-trivial = decoder inputs starting with '&#' and all recall cases; distinct by input.",
 		Plan: func(tier string, seed uint64) []core.Unit {
 			L := 6
@@ -899,6 +901,7 @@ func c19() *core.Check {
 			us = append(us, gen.RangeUnits("enc-data", gen.Pow(8, 5), 4096, "")...)
 			us = append(us, gen.RangeUnits("enc-java", gen.Pow(8, 4), 4096, "")...)
 			us = append(us, gen.RangeUnits("enc-rand", rnd, 20000, "")...)
+			us = append(us, core.Unit{Gen: "literal", Lo: 0, Hi: 1})
 			return us
 		},
 		Gen: func(w *core.Worker, u core.Unit, emit func(core.Case)) {
@@ -1000,6 +1003,26 @@ func c19() *core.Check {
 						emit(core.Case{In: v, Kind: "url", A: int64(i % 97)})
 					}
 				}
+			case "literal":
+				// the schemes written out plainly with real-world continuations, on
+				// every URL attribute in every quoting (an exemption for "harmless"
+				// inline images or well-known values must not reach these)
+				tails := []string{"x", "alert(1)", "text/html,x", "text/html;base64,PHNjcmlwdD4", "image/svg+xml,x", "image/svg+xml;base64,PHN2Zz4", "image/gif;base64,R0lGODlhAQABAAAAACw", "image/png;base64,iVBORw0KGgoAAAANSUhEUg", "image/jpeg;base64,/9j/4AAQSkZJRg",
+					"image/jpg;base64,/9j/4AAQ", "image/webp;base64,UklGRhoAAABXRUJQ", "image/png,a;b", "image/gif;base64,R0lGODdhAQABAIAAAP///////ywAAAAAAQABAAACAkQBADs", "application/pdf;base64,JVBERi0", "font/woff2;base64,d09GMg", ",", ";base64,", "void(0)", "//x", "msgbox(1)", "http://a/b"}
+				na := len(urlAttrs())
+				for si, sc := range schemes {
+					for ti, t := range tails {
+						for ai := 0; ai < na; ai++ {
+							for qi := 0; qi < 4; qi++ {
+								v := sc + t
+								if (si+ti+ai+qi)%4 == 1 {
+									v = strings.ToUpper(sc) + t
+								}
+								emit(core.Case{In: v, Kind: "urllit", B: int64(ai), C: int64(qi)})
+							}
+						}
+					}
+				}
 			case "enc-rand":
 				r := core.NewRng(w.R.Seed, "c19", fmt.Sprint(u.Lo))
 				for i := u.Lo; i < u.Hi; i++ {
@@ -1021,7 +1044,7 @@ func c19() *core.Check {
 							junk = stretchTo(junk, g04StretchLens[r.Intn(len(g04StretchLens))])
 						}
 					}
-					v := junk + encodeScheme(sc, r.U64(), inter, r.U64(), true, runLen) + []string{"x", "alert(1)", "", "//a", "text/html,x", "image/svg+xml,<svg>", "image/png;base64,AAAA", "IMAGE/SVG+XML;base64,x", "http://x/", "msgbox(1)", "void(0)", "void(0);fetch(1)", "alert(1)//javascript:void(0)", "void(0)//"}[r.Intn(14)]
+					v := junk + encodeScheme(sc, r.U64(), inter, r.U64(), true, runLen) + []string{"x", "alert(1)", "", "//a", "text/html,x", "image/svg+xml,<svg>", "image/png;base64,AAAA", "image/gif;base64,R0lGODlhAQABAAAAACw", "image/png;base64,iVBORw0KGgoAAAANSUhEUg", "image/jpeg;base64,/9j/4AAQSkZJRg", "image/webp;base64,UklGRhoAAABXRUJQ", "image/png,a;b", "IMAGE/SVG+XML;base64,x", "http://x/", "msgbox(1)", "void(0)", "void(0);fetch(1)", "alert(1)//javascript:void(0)", "void(0)//"}[r.Intn(19)]
 					emit(core.Case{In: v, Kind: "url", A: int64(r.Intn(1 << 20))})
 				}
 			}
@@ -1062,6 +1085,22 @@ func c19() *core.Check {
 				return
 			}
 			attrs := urlAttrs()
+			if c.Kind == "urllit" {
+				a := attrs[int(c.B)%len(attrs)]
+				q := g04Quotes[int(c.C)%len(g04Quotes)]
+				if q == "" && strings.ContainsAny(s, " >") {
+					q = "'"
+				}
+				tag := []string{"img", "a", "video", "body", "x"}[int(c.B+c.C)%5]
+				doc := "<" + tag + " " + a + "=" + q + s + q + ">"
+				if !li.IsXSS(doc) {
+					w.Violate("scheme-not-recognised", fmt.Sprintf("IsXSS(%q) = false although the value starts with a script-capable scheme\n%s", trunc(doc, 200), explainXSS(doc)))
+					return
+				}
+				w.Count("recall_cases", 1)
+				w.Nontrivial(doc)
+				return
+			}
 			a := attrs[int(c.A)%len(attrs)]
 			q := g04Quotes[int(c.A/7)%len(g04Quotes)]
 			val := s
